@@ -267,6 +267,21 @@ theorem log_lifting (e : Event) (r : LogRecord) (hu : UniqueOk e.unique e.props)
   · simp only [List.mem_cons, List.not_mem_nil, or_false] at hk
     rcases hk with rfl | rfl | rfl | rfl <;> rcases hq with hq | hq <;> exact absurd hq (by decide)
 
+/-- `err` lifting for logs: the FIRST `err` value becomes the attribute `exception.message` (through the any-value
+    bridge: an error contributes its own message, any other value itself), and an error with a source chain also
+    `exception.stacktrace` with one `caused by:` line per source. -/
+theorem log_err_lifting (e : Event) (r : LogRecord) (v : PV)
+    (h : logRecord e = .ok r) (hv : lookupFirst "err" e.props = some v) :
+    ∃ a, anyValue v.image = .ok a ∧ ("exception.message", a) ∈ r.attributes ∧
+      ∀ top c cs, v.error? = some (top, c :: cs) →
+        ("exception.stacktrace", AnyValue.str (stacktraceText (c :: cs))) ∈ r.attributes := by
+  unfold logRecord at h
+  obtain ⟨as, has, h⟩ := (Enc.bind_ok_iff _ _ _).mp h
+  cases h
+  have hd : lookupFirst "err" e.deduped = some v := by
+    unfold Event.deduped; rw [dedup_lookup]; exact hv
+  exact logAttrs_err _ _ has v (mem_of_lookupFirst _ _ _ hd)
+
 /-- FULL STATEMENT (false on the code for instants ≥ 2^64 ns, F6): the record's timestamps are the end of the
     extent in nanoseconds. PROVED for instants below 2^64 ns (before 2554-07-21T23:34:33.709551616Z). -/
 theorem log_time_partial (e : Event) (r : LogRecord) (t : Ts) (h : logRecord e = .ok r)
